@@ -266,7 +266,10 @@ Definition step (c : cfg) (w : st) (a : op) : st * outcome :=
       if attachedb w e && negb (Nat.eqb e 0) then (parent_remove_child c w (par (E w e)) e, Ok) else (w, BadOp)
   | ODrop => (set_reg_held w (reg w) (filter (attachedb w) (held w)), Ok)
   | OList k =>
-      (* Workspace.remove_none_referents(registry, rtype) behind ws.groups / objects / data / property_groups *)
+      (* Workspace.remove_none_referents(registry, rtype) behind ws.groups / objects / data / property_groups.
+         H5Writer.remove_entity(key, rtype, parent=self) deletes the entry of the flat container and then calls
+         remove_child(uid, rtype, parent = the WORKSPACE): fetch_handle answers the base group for it, whose `rtype` member is
+         the flat container the entry was just deleted from, so that call never finds anything: flat nodes only. *)
       let dead := filter (fun x => kind_eqb (ekind (E w x)) k && negb (memb x (held w))) (reg w) in
       match k with
       | KPG => if pg_list_ok c then (set_reg_held w (filter (fun x => negb (memb x dead)) (reg w)) (held w), Ok)
@@ -283,14 +286,19 @@ Definition step (c : cfg) (w : st) (a : op) : st * outcome :=
         else (w, NotFound)
       else (w, BadOp)
   | ORemoveParentMany es =>
-      (* parent.remove_children([e1; e2; ...]) with several children (possibly of different kinds) of one parent:
+      (* parent.remove_children([e1; e2; ...]) on the parent p of e1, with several entities (possibly of different kinds):
          EntityContainer / ObjectBase.remove_children take them off the children list, then Workspace.remove_children
-         unlinks each one from the container of ITS kind (ref_type = str_from_type(child), per child) *)
+         unlinks each one from the container of ITS kind (ref_type = str_from_type(child), per child).
+         Entities of the list that are NOT children of p are skipped (object_base.py `if child not in self._children: continue`,
+         entity_container.py filter): object_remove_child / group_remove_child leave the records alone and the unlink finds no
+         link under p's node.  Outside the model (BadOp): a PROPERTY GROUP of another object in the list: the code skips it in
+         memory but Workspace.remove_children still deletes ITS stored record (finding remove-children-foreign-pg, oracle only). *)
       match es with
       | [] => (w, BadOp)
       | e0 :: _ =>
           let p := par (E w e0) in
-          if forallb (fun e => attachedb w e && negb (Nat.eqb e 0) && Nat.eqb (par (E w e)) p) es
+          if forallb (fun e => attachedb w e && negb (Nat.eqb e 0) &&
+                               (Nat.eqb (par (E w e)) p || negb (kind_eqb (ekind (E w e)) KPG))) es
           then (fold_left (fun w e => parent_remove_child c w p e) es w, Ok) else (w, BadOp)
       end
   end.
